@@ -13,13 +13,16 @@ def base(store="cookie", sel="roundrobin", hosts=None, split=False):
 def c13(work, tier, seed):
     design = design_check("Oidc", "MC_Oidc.cfg", work, workers=8, timeout=600)
     rng = random.Random(seed)
-    scripts = []
+    scripts, slow = [], []
     for store in ("cookie", "file"):
         cfg = base(store)
         for st in ("issued", "unknown", "reused") + (("expired",) if tier == "thorough" else ()):
             for lg in LOGINS:
-                for rep in range(1 if tier == "quick" else 3):
-                    scripts.append({"id": "cb%04d" % len(scripts), "kind": "callback", "cfg": cfg, "state": st, "login": lg, "user": rng.choice(["user1", "Ünï cødé", "bob@corp.example", "x" * 200])})
+                for rep in range(1 if tier == "quick" or st == "expired" else 3):
+                    sc = {"id": "cb%04d" % (len(scripts) + len(slow)), "kind": "callback", "cfg": cfg, "state": st, "login": lg, "user": rng.choice(["user1", "Ünï cødé", "bob@corp.example", "x" * 200])}
+                    # an expired state means waiting out the two-minute lifetime: these scripts are spread over the
+                    # instances instead of queueing up on one
+                    (slow if st == "expired" else scripts).append(sc)
         npos = 40 if tier == "quick" else 400
         for k in range(npos):
             scripts.append({"id": "ck%04d" % len(scripts), "kind": "cookie", "cfg": cfg, "mut": "subst", "pos": (k * 9973 + seed) % 100000, "user": "user1"})
@@ -27,6 +30,24 @@ def c13(work, tier, seed):
             scripts.append({"id": "ck%04d" % len(scripts), "kind": "cookie", "cfg": cfg, "mut": "trunc", "pos": (k * 7919 + seed) % 100000, "user": "user1"})
         for m in ("none", "none", "empty", "garbage", "foreign"):
             scripts.append({"id": "ck%04d" % len(scripts), "kind": "cookie", "cfg": cfg, "mut": m, "pos": 0, "user": rng.choice(["user1", "Ünï cødé", "bob@corp.example"])})
+    if slow:
+        # one slow script at the head of every chunk the driver forms per configuration
+        per = max(1, (len(scripts) + len(slow)) // 32)
+        merged, bycfg = [], {}
+        for sc in scripts:
+            bycfg.setdefault(json.dumps(sc["cfg"], sort_keys=True), []).append(sc)
+        slowby = {}
+        for sc in slow:
+            slowby.setdefault(json.dumps(sc["cfg"], sort_keys=True), []).append(sc)
+        for k, lst in bycfg.items():
+            sl = slowby.get(k, [])
+            step = max(1, len(lst) // max(1, len(sl)))
+            for j, sc in enumerate(lst):
+                if j % step == 0 and sl:
+                    merged.append(sl.pop())
+                merged.append(sc)
+            merged += sl
+        scripts = merged
     out, rep, res = fa.generic("C13", work, tier, seed, "oidc", "OidcTrace", scripts, design,
                                lambda v: "%s/%s/%s" % (v["guard"], v["a"], v["b"]),
                                "Oidc.tla: two browsers, state values with expiry, every login outcome, cookie tampering (design). Conformance on the real binary with a fake IdP, both session stores: every (state class x IdP failure point) "
